@@ -576,6 +576,11 @@ def worker(f):
             # dispatcher looks at this task finds nothing to abort and its
             # reply must not overtake the reply of the failed transfer
             connection.response("451", "file system error")
+        except ConnectionError:
+            # peer closed its data connection in the middle of transfer
+            # (the usual way to stop a download): that is the end of
+            # transfer, not of session
+            connection.response("426", "data connection closed")
 
     return wrapper
 
